@@ -349,6 +349,8 @@ func (c *fileCtx) rewriteStmt(s ast.Stmt) (pre []ast.Stmt, repl ast.Stmt, post [
 	switch st := s.(type) {
 	case *ast.RangeStmt:
 		repl = c.rewriteRange(st, &pre)
+	case *ast.SelectStmt:
+		repl = c.rewriteSelect(st)
 	case *ast.IncDecStmt:
 		if r := c.tornRMW(st.X, st.Tok, nil, st.Pos()); r != nil {
 			repl = r
@@ -754,4 +756,60 @@ func (c *fileCtx) rewriteRange(rs *ast.RangeStmt, pre *[]ast.Stmt) ast.Stmt {
 		return &ast.ForStmt{Body: &ast.BlockStmt{List: append(head, rs.Body.List...)}}
 	}
 	return rs
+}
+
+// rewriteSelect (R7b) makes the choice among several READY cases a simulator decision: the
+// communication cases are first polled one by one, non-blocking, in the order simrt.SelectOrder
+// returns; only when none is ready does the original select run (and block, or take its default).
+// Polling in some order and taking the first ready case is one of the executions Go allows.
+// The case bodies are shared between the polled copy and the original; statements with labels
+// inside a body would be defined twice, so such selects are left alone.
+func (c *fileCtx) rewriteSelect(st *ast.SelectStmt) ast.Stmt {
+	var comm []*ast.CommClause
+	for _, cl := range st.Body.List {
+		cc := cl.(*ast.CommClause)
+		if cc.Comm != nil {
+			comm = append(comm, cc)
+		}
+	}
+	if len(comm) < 2 {
+		return st
+	}
+	hasLabel := false
+	ast.Inspect(st, func(n ast.Node) bool {
+		if _, ok := n.(*ast.LabeledStmt); ok {
+			hasLabel = true
+		}
+		return true
+	})
+	if hasLabel {
+		cs.Skipped = append(cs.Skipped, c.site(st.Pos())+" select with labels")
+		return st
+	}
+	site := c.site(st.Pos())
+	c.needSimrt = true
+	cs.Sites["R7b_select"]++
+	ord := ast.NewIdent("simOrd")
+	done := ast.NewIdent("simDone")
+	n := len(comm)
+	var stmts []ast.Stmt
+	stmts = append(stmts,
+		&ast.AssignStmt{Lhs: []ast.Expr{ord}, Tok: token.DEFINE, Rhs: []ast.Expr{simCall("SelectOrder", lit(site), &ast.BasicLit{Kind: token.INT, Value: strconv.Itoa(n)})}},
+		&ast.AssignStmt{Lhs: []ast.Expr{done}, Tok: token.DEFINE, Rhs: []ast.Expr{ast.NewIdent("false")}},
+	)
+	for pos := 0; pos < n; pos++ {
+		var cases []ast.Stmt
+		for i, cc := range comm {
+			body := append([]ast.Stmt{&ast.AssignStmt{Lhs: []ast.Expr{done}, Tok: token.ASSIGN, Rhs: []ast.Expr{ast.NewIdent("true")}}}, cc.Body...)
+			poll := &ast.SelectStmt{Body: &ast.BlockStmt{List: []ast.Stmt{
+				&ast.CommClause{Comm: cc.Comm, Body: body},
+				&ast.CommClause{Comm: nil},
+			}}}
+			cases = append(cases, &ast.CaseClause{List: []ast.Expr{&ast.BasicLit{Kind: token.INT, Value: strconv.Itoa(i)}}, Body: []ast.Stmt{poll}})
+		}
+		sw := &ast.SwitchStmt{Tag: &ast.IndexExpr{X: ord, Index: &ast.BasicLit{Kind: token.INT, Value: strconv.Itoa(pos)}}, Body: &ast.BlockStmt{List: cases}}
+		stmts = append(stmts, &ast.IfStmt{Cond: &ast.UnaryExpr{Op: token.NOT, X: done}, Body: &ast.BlockStmt{List: []ast.Stmt{sw}}})
+	}
+	stmts = append(stmts, &ast.IfStmt{Cond: &ast.UnaryExpr{Op: token.NOT, X: done}, Body: &ast.BlockStmt{List: []ast.Stmt{st}}})
+	return &ast.BlockStmt{List: stmts}
 }
